@@ -101,6 +101,8 @@ class Prepared:
         self.enc_fams = {}      # id -> encoded family strings
         self.table = {}         # sample_key -> payload index
         self.dup_own = {}
+        self.phases = {}        # id -> per phase (fams, enc_fams, desc, describe Metric list) of a time-varying collector
+        self.frozen = {}        # id -> description at the moment of the successful registration (what it CLAIMS while registered)
         for c in case['collectors']:
             cid = c['id']
             if c['kind'] == 'builtin':
@@ -126,6 +128,11 @@ class Prepared:
                 self.desc[cid] = [(m.name, m.type) for m in obj.describe()]
                 fams = real_collect()
             else:
+                if c['kind'] == 'varying':
+                    # a collector whose described / collected families change over time: one entry per phase; the history
+                    # op ['m', id, phase] switches it.  Phase 0 is built by the code below, the others afterwards.
+                    self.phases[cid] = [None] * len(c['phases'])
+                    c = dict(c, describe=c['phases'][0]['describe'], families=c['phases'][0]['families'])
                 fams = []
                 for f in c['families']:
                     m = metrics_core.Metric(f['name'], f['help'], f['type'], f.get('unit', ''))
@@ -156,13 +163,40 @@ class Prepared:
                     if k not in self.table:
                         self.table[k] = len(self.table)
             self.enc_fams[cid] = [self.enc_family(m) for m in fams]
+            if cid in self.phases:
+                orig = [x for x in case['collectors'] if x['id'] == cid][0]
+                self.phases[cid][0] = (fams, self.enc_fams[cid], self.desc[cid], getattr(obj, '_desc', None))
+                for pi, ph in enumerate(orig['phases'][1:], 1):
+                    sub = Prepared.__new__(Prepared)
+                    sub.log = self.log
+                    sub._build({'ad': case['ad'], 'collectors': [dict(id=cid, kind='custom', describe=ph['describe'],
+                                                                       families=ph['families'])]}, pc, metrics_core, samples)
+                    for k in sub.table:
+                        if k not in self.table:
+                            self.table[k] = len(self.table)
+                    sub.table = self.table
+                    self.phases[cid][pi] = (sub.fams[cid], [self.enc_family(m) for m in sub.fams[cid]], sub.desc[cid],
+                                            getattr(sub.objs[cid], '_desc', None))
         self.ad = bool(case['ad'])
         for cid in self.objs:
             cl = self.claims(cid)
             self.dup_own[cid] = len(set(cl)) != len(cl)
 
+    def set_phase(self, cid, p):
+        """the history mutates a time-varying collector: from now on describe()/collect() return phase p"""
+        fams, enc, desc, dm = self.phases[cid][p]
+        self.fams[cid], self.enc_fams[cid], self.desc[cid] = fams, enc, desc
+        self.objs[cid]._fams = fams
+        if dm is not None:
+            self.objs[cid]._desc = dm
+
     # -- the statement's notion of what a collector claims
     def described(self, cid):
+        if cid in self.frozen:      # registered: it claims what it described when it registered, whatever it says now
+            return self.frozen[cid]
+        return self.described_now(cid)
+
+    def described_now(self, cid):
         if self.desc[cid] is not None:
             return self.desc[cid]
         if self.ad:
@@ -197,7 +231,7 @@ class Prepared:
         return 'c06 hist %d %s %s %s %s' % (
             1 if self.ad else 0, enc_labels(case['ti']),
             ';'.join(self.enc_collector(c['id']) for c in case['collectors']) or '.',
-            ';'.join(enc_op(o) for o in ops if o[0] != 'c') or '.',
+            ';'.join(enc_op(o) for o in ops if o[0] not in 'cm') or '.',
             ';'.join((','.join(hexs(n) for n in ns) or '_') for ns in namesets) or '.') + w
 
 
@@ -214,6 +248,8 @@ def enc_labels(l):
 def enc_op(o):
     if o[0] == 't':
         return 't' + enc_labels(o[1])
+    if o[0] == 'm':          # the history mutates a time-varying collector: ['m', id, phase]
+        return 'm%d.%d' % (o[1], o[2])
     if o[0] == 'c':          # metrics.enable_created_metrics() / disable_created_metrics(): configuration, not a registry call
         return 'c%d' % (1 if o[1] else 0)
     return '%s%d' % (o[0], o[1])
@@ -283,6 +319,17 @@ def _run_history(prep, ops, fail, count, after_step, pm):
             (pm.enable_created_metrics if op[1] else pm.disable_created_metrics)()
             count('op-created-%s' % ('on' if op[1] else 'off'))
             before = snapshot(prep, reg)
+            if after_step:
+                after_step(step + 1, op, 'ok', reg, before)
+            continue
+        if op[0] == 'm':
+            # the collector object changes what it describes / collects; what it CLAIMS while registered stays what it
+            # described at registration (the statement: unregister "releases all and only its names")
+            prep.set_phase(op[1], op[2])
+            count('op-mutate')
+            before = snapshot(prep, reg)
+            if after_step:
+                after_step(step + 1, op, 'ok', reg, before)
             continue
         registered = before[1]                      # ids whose collect() the registry invokes, in order
         ti_set = bool(before[4])
@@ -304,6 +351,8 @@ def _run_history(prep, ops, fail, count, after_step, pm):
         except Exception as e:  # noqa
             err = type(e).__name__
         opcalls = list(prep.log)        # collect() calls made by the call itself
+        if op[0] == 'r' and err is None and op[1] not in before[1]:
+            prep.frozen[op[1]] = prep.described_now(op[1])
         after = snapshot(prep, reg)
         count('op-%s-%s' % (op[0], err or 'ok'))
 
@@ -393,6 +442,8 @@ def _run_history(prep, ops, fail, count, after_step, pm):
                         seen[n] = cid
                 if len(set(after[1])) != len(after[1]):
                     bad('C06:collected-twice', 'collect() invoked %r' % (after[1],))
+        if op[0] == 'u' and err is None:
+            prep.frozen.pop(op[1], None)
         o = Observed()
         o.err = err or 'ok'
         o.ids = None if after[2] is None else [c for c, _ in after[2]]
@@ -478,6 +529,16 @@ def custom(cid, fams, describe='same', samples='full'):
     return {'id': cid, 'kind': 'custom', 'describe': d, 'families': families}
 
 
+def varying(cid, phases, describe=True):
+    """a collector whose families change over time (one family per attached device, …): `phases` is a list of family
+    lists [(name, type), …]; with `describe` its describe() follows the current phase, without it only auto-describe sees it"""
+    out = []
+    for i, fams in enumerate(phases):
+        c = custom(cid * 10 + i, fams, describe='same' if describe else None)
+        out.append({'describe': c['describe'], 'families': c['families']})
+    return {'id': cid, 'kind': 'varying', 'phases': out}
+
+
 def reduced_alphabet():
     cs = [
         custom(1, [('x', 'counter')]),
@@ -504,6 +565,12 @@ BUILTINS = [('Counter', 'x_total'), ('Counter', 'x'), ('Gauge', 'x_created'), ('
 
 
 def random_collector(rng, cid, allow_dup=False):
+    if rng.random() < 0.12:
+        base_fams = [(n, rng.choice(TYPES)) for n in rng.sample(ALPHABET, rng.choice([2, 2, 3]))]
+        phases = [base_fams]
+        for _ in range(rng.choice([1, 2])):
+            phases.append([f for f in base_fams if rng.random() < 0.6] or base_fams[:1])
+        return varying(cid, phases, describe=rng.random() < 0.5)
     if rng.random() < 0.25:
         cls, name = rng.choice(BUILTINS)
         c = {'id': cid, 'kind': 'builtin', 'cls': cls, 'name': name}
@@ -540,8 +607,12 @@ def random_case(rng, length):
     switch = rng.random() < 0.5       # half of the histories also toggle the created-series switch
     for _ in range(length):
         r = rng.random()
+        var = [c for c in cs if c['kind'] == 'varying']
         if switch and rng.random() < 0.1:
             ops.append(['c', rng.random() < 0.5])
+        elif var and rng.random() < 0.12:
+            c = rng.choice(var)
+            ops.append(['m', c['id'], rng.randrange(len(c['phases']))])
         elif r < 0.45:
             ops.append(['r', rng.choice(cs)['id']])
         elif r < 0.8:
@@ -557,6 +628,12 @@ def random_case(rng, length):
 
 
 CORPUS = [
+    # a collector whose families change while it is registered (one family per attached device): unregister releases what
+    # the REGISTRATION claimed, so the dropped name is free again and a collector claiming it registers
+    {'ad': True, 'ti': None, 'collectors': [varying(1, [[('x', 'gauge'), ('x_total', 'gauge')], [('x', 'gauge')]], describe=False),
+                                            custom(2, [('x_total', 'gauge')]),
+                                            varying(3, [[('target', 'gauge'), ('x_sum', 'gauge')], [('target', 'gauge')]])],
+     'ops': [['r', 1], ['r', 2], ['m', 1, 1], ['u', 1], ['r', 2], ['r', 1], ['r', 3], ['m', 3, 1], ['u', 3], ['m', 3, 0], ['r', 3]]},
     # the created-series switch does not change what anybody claims: x (counter) still reserves x_created while it is off
     {'ad': False, 'ti': None, 'created': True, 'collectors': [
         {'id': 1, 'kind': 'builtin', 'cls': 'Counter', 'name': 'x'}, {'id': 2, 'kind': 'builtin', 'cls': 'Gauge', 'name': 'x_created'},
@@ -622,6 +699,11 @@ class Runner:
                          'collectors': {c['id']: (prep.desc[c['id']], prep.dup_own[c['id']]) for c in case['collectors']},
                          'ops': ' '.join(map(enc_op, case['ops'])), 'outcomes': list(errs)})
         ctx.count('history-length-%02d' % min(len(case['ops']), 40))
+        if any(o[0] == 'm' for o in case['ops']):
+            # the model treats a collector as a VALUE (describe()/collect() never change): a history that mutates a collector
+            # is checked by the oracle on the real code only
+            ctx.count('oracle-only-histories-with-mutating-collector')
+            return
         self.pending.append((case, prep.request(), obs))
         if len(self.pending) >= 4000:
             self.flush()
@@ -661,7 +743,7 @@ def run(ctx):
                 'history of length 3 over {x counter, x_created gauge, built-in Histogram x, built-in Gauge x_created, undescribed '
                 'x summary} x {register, unregister} + disable/enable_created_metrics(); random '
                 'histories of length 40 over 3-8 collectors drawn from the 11-name alphabet x 8 types x describe present/absent/'
-                'disagreeing x built-in Counter/Gauge/Summary/Histogram/Info/Enum, initial target info None/{}/labels, half of them with the created-series switch toggled at random points. '
+                'disagreeing x built-in Counter/Gauge/Summary/Histogram/Info/Enum, initial target info None/{}/labels, time-varying collectors (families change between calls, switched by a history op; oracle only), half of them with the created-series switch toggled at random points. '
                 'Non-trivial: at least one call raised and at least one collector was collected; distinct by the trace of '
                 '(outcome, collected ids, name-map keys, target info)')
     rn = Runner(ctx)
